@@ -127,8 +127,9 @@ def record_lattice(spec):
             continue
         r = a.compute_single_bin(freqs[c2], L=L)
         ev.append(event("single", r, 0, c2))
-    for (c2, fresL) in spec["singles_fres"]:
-        r = a.compute_single_bin(freqs[c2], fres=1.0 / fresL)
+    for k, (c2, fresL) in enumerate(spec["singles_fres"]):
+        # fs/fres need not be an integer: the reported f stays the requested frequency, L = round(fs/fres)
+        r = a.compute_single_bin(freqs[c2], fres=1.0 / (fresL + (0.4 if k % 2 else 0.0)))
         ev.append(event("single", r, 0, c2))
     return {"meta": dict(spec), "c": {"x": [int(v) for v in x], "y": [int(v) for v in y], "win": win_id, "order": order,
                                        "mode": mode, "N": N}, "ev": ev}
